@@ -1,6 +1,6 @@
 """C16 - Group builds exactly the buckets and aggregates of a hand-written loop.
 
-Enumerated: every item sequence of length <= 4 over {0,1,2,3} (341) plus list- and
+Enumerated: every item sequence of length <= 4 over {-1,0,1,2} (341) plus list- and
 dict-valued items; x Group spec trees with 0-3 key levels over key functions (T % 2, T % 3,
 callable, constant, SKIP-producing) and leaves ([T], [T*2], [SKIP-producing],
 [STOP-producing], First, Max, Min, Avg, Sum, Count, Flatten, Merge, plain callable), top-level
@@ -41,7 +41,7 @@ VALFNS = {
     'T': (lambda: T, lambda x: x),
     'dbl': (lambda: T * 2, lambda x: x * 2),
     'skipodd': (lambda: (lambda x: SKIP if x % 2 else x), lambda x: rSKIP if x % 2 else x),
-    'stop3': (lambda: (lambda x: STOP if x == 3 else x), lambda x: rSTOP if x == 3 else x),
+    'stop3': (lambda: (lambda x: STOP if x == 2 else x), lambda x: rSTOP if x == 2 else x),
 }
 AGGS = {'first': First, 'max': Max, 'min': Min, 'avg': Avg, 'sum': Sum, 'count': Count, 'flatten': Flatten, 'merge': Merge}
 FNLEAF = {'neg': (lambda: (lambda x: -x), lambda x: -x)}
@@ -243,7 +243,7 @@ def desc(v):
 
 def mk_items(kind, seq):
     if kind == 'ints':
-        return list(seq)
+        return [x - 1 for x in seq]     # item alphabet {-1, 0, 1, 2}: a falsy running value followed by a smaller item is reachable
     if kind == 'lists':
         menu = [[1], [2, 3], [], [4, 5, 6]]
         return [list(menu[i]) for i in seq]
